@@ -245,6 +245,33 @@ def identical_lookups(res, ctx, rng, arities):
                 res.count('identical_lookup_windows')
 
 
+def scale_lookups(res, ctx, rng, arities):
+    """Lookups far into a long window: a call whose thread produces n further records between its START and a lookup (or
+    between the chunks of one lookup) still shows that lookup.  Rungs step over 2^16 (vlib/histories.py)."""
+    two = sorted(n for n, a in arities.items() if a and a >= 2 and n not in ('BSC_symlinkat', 'BSC_posix_spawn'))
+    one = sorted(n for n, a in arities.items() if a == 1)
+    for n in [n for i, n in enumerate(ctx.pick(H.SCALE_RUNGS_QUICK, H.SCALE_RUNGS_THOROUGH)) if ctx.mine(i)]:
+        t1, t2 = ascii_text(rng.randrange(30, 185), 1), straddling_text(rng.randrange(40, 185), 24, 2)
+        l1, l2 = H.lookup(0x7001, t1), H.lookup(0x7002, t2)
+        # n counts the records of the window up to and including the first record that comes after the filler
+        if two and rng.random() < 0.6:
+            name = rng.choice(two)
+            where = rng.choice(('between the lookups', 'between the chunks of the second lookup'))
+            if where == 'between the lookups' or len(l2) < 2:
+                nested = l1 + H.window_filler(rng, n - 2 - len(l1)) + l2
+            else:
+                nested = l1 + l2[:1] + H.window_filler(rng, n - 3 - len(l1)) + l2[1:]
+            expected = [(t1.decode(), 0x7001), (t2.decode(), 0x7002)]
+        else:
+            name, where = rng.choice(one), 'before the lookup'
+            nested = H.window_filler(rng, n - 2) + l1
+            expected = [(t1.decode(), 0x7001)]
+        events = H.materialize(H.on_thread(7, H.gen_syscall(rng, name, nested)))
+        check_lookup_history(res, events, expected, f'{name} with {n} same-thread records {where}', enclosing=name,
+                             arity=arities[name])
+        res.count('scale_lookup_windows')
+
+
 # ---------------------------------------------------------------------------------------------
 # global strings and thread names
 # ---------------------------------------------------------------------------------------------
@@ -419,6 +446,7 @@ def run(ctx):
     lookup_workload(res, ctx, rng, arities)
     if ctx.shard == 0:
         identical_lookups(res, ctx, rng, arities)
+    scale_lookups(res, ctx, rng, arities)
     string_workload(res, ctx, rng)
     reuse_workload(res, ctx, rng)
     if ctx.shard == 0:
@@ -434,6 +462,7 @@ def run(ctx):
     res.require('reuse_rounds', 10)
     res.require('lookup_histories_through_a_dump', 10)
     res.require('identical_lookup_windows', 8)
+    res.require('scale_lookup_windows', 4)
     res.require('lookups_with_boundary_vnode_id', 10)
     return res
 
